@@ -113,6 +113,12 @@ def run(kind, x, y, n, kw, rng=None):
         callform.scribble(first, [])
     if rng is not None and rng.integers(0, 3) == 0:
         x = gen.as_container(rng, x)[0]         # the abscissae in any of the containers (the constructor converts on entry)
+    if rng is not None and rng.integers(0, 4) == 0:
+        # a parameter sweep on ONE series: the same averages were asked before with other strategy parameters (whatever
+        # the library remembers about a series must be keyed by everything the answer depends on)
+        kw_prev, _a = gen_params(rng, kind, n)
+        if kw_prev != kw:
+            cls(kind)(np.array(x, copy=True), np.array(y, copy=True), n, **kw_prev).rfa()
     if rng is not None and rng.integers(0, 5) == 0:
         # the same request through the Weaver: recreate_from_average(n, rfa_class, **parameters) builds the strategy
         # (library class or a user class derived from it) and returns its series
